@@ -354,15 +354,24 @@ func (s *Solver) check1(pc []*Term, extra []*Term, wantModel bool) (string, map[
 		model = map[*Term]uint64{}
 		if len(names) > 0 {
 			ml, ok := s.roundtrip("(get-value (" + strings.Join(names, " ") + "))")
-			if !ok {
-				s.Stats.Errors++
-				return "unknown", nil, true
-			}
 			txt := strings.Join(ml, " ")
-			if strings.Contains(txt, "(error") {
-				s.Stats.Errors++
-				s.lastErr = txt
-				res = "error"
+			if !ok || strings.Contains(txt, "(error") {
+				// The incremental process died or failed while printing
+				// the model. Nothing is taken from it: it is discarded and
+				// the query (with its model) is decided by a fresh process.
+				s.Stats.Hung++
+				s.dirty = true
+				r, m := s.oneShot(pc, extra, s.rawExtra, s.rawTerms, wantModel)
+				s.Stats.Seconds += time.Since(t0).Seconds()
+				switch r {
+				case "sat":
+					s.Stats.Sat++
+				case "unsat":
+					s.Stats.Unsat++
+				default:
+					s.Stats.Unknown++
+				}
+				return r, m, false
 			}
 			for _, mm := range valRe.FindAllStringSubmatch(txt, -1) {
 				v := byName[mm[1]]
